@@ -237,7 +237,7 @@ def normalize_pose(k, p):
 # consistent trajectory graphs (C05, C07, C08, C12, C16 ...)
 # --------------------------------------------------------------------------- #
 def trajectory_graph(rng, k, n, n_loops=0, n_lm=0, meas_t=0.0, meas_r=0.0, init_t=0.0, init_r=0.0,
-                     cond=10.0, cross=True, step=1.0, scale=5.0, lm_offsets=True, start=None, uturn=0.0):
+                     cond=10.0, cross=True, step=1.0, scale=5.0, lm_offsets=True, start=None, uturn=0.0, straight_init=False):
     """Ground-truth trajectory of n poses of kind k + odometry / loop / landmark measurements.
     Returns a spec (vertices hold the perturbed initial guess) with extra keys 'truth'."""
     kp = R.POINT_OF[k]
@@ -284,6 +284,15 @@ def trajectory_graph(rng, k, n, n_loops=0, n_lm=0, meas_t=0.0, meas_r=0.0, init_
                           "est_kind": kp, "off": off, "off_kind": k, "off_id": 0})
     init = [perturb(rng, k, t, init_t, init_r) if (init_t or init_r) else list(t) for t in truth]
     init[0] = list(truth[0])
+    if straight_init:
+        # the textbook initial guess: poses on a line, headings exactly zero / identity quaternions, exact zeros in y (z)
+        for j in range(1, n):
+            if k == "se2":
+                init[j] = [float(j) * step, 0.0, 0.0]
+            elif k == "se3":
+                init[j] = [float(j) * step, 0.0, 0.0, 0.0, 0.0, 0.0, 1.0]
+            else:
+                init[j] = [float(j) * step] + [0.0] * (cd - 1)
     linit = [[x + rng.normal() * init_t for x in L] for L in lms]
     vertices = [{"id": i, "kind": k, "pose": p, "fixed": i == 0} for i, p in enumerate(init)]
     vertices += [{"id": n + m, "kind": kp, "pose": p, "fixed": False} for m, p in enumerate(linit)]
@@ -340,7 +349,7 @@ def fingerprint(obj):
 # --------------------------------------------------------------------------- #
 def cluster_graph(rng, kinds=None, size=(2, 6), noise_t=0.05, noise_r=0.03, init_t=0.2, init_r=0.1, cond=100.0,
                   custom=True, landmarks=True, multi=True, reverse=True, shuffle=True, weird_ids=True,
-                  extra_fixed=True, numeric_custom=None, scale=4.0, cross=None, fix_mode=None, alias=False):
+                  extra_fixed=True, numeric_custom=None, scale=4.0, cross=None, fix_mode=None, alias=False, special=False):
     """Returns (spec, labels).  Every cluster (= connected component before landmark links) holds one fixed vertex,
     unless fix_mode == 'first' (then only the first listed vertex is fixed and there is a single pose cluster)."""
     labels = set()
@@ -497,6 +506,18 @@ def cluster_graph(rng, kinds=None, size=(2, 6), noise_t=0.05, noise_r=0.03, init
                 if rng.random() < 0.2:
                     v["fixed"] = True
             labels.add("several_fixed_per_cluster")
+    if special:
+        for v in vertices:
+            if rng.random() < 0.3:
+                kk = v["kind"]
+                c = rng.integers(3)
+                if kk == "se2":
+                    v["pose"][2] = [0.0, PI / 2, -PI / 2][c]
+                elif kk == "se3":
+                    v["pose"] = v["pose"][:3] + [[0.0, 0.0, 0.0, 1.0], [1.0, 0.0, 0.0, 0.0], [0.0, 0.0, 0.0, -1.0]][c]
+                else:
+                    v["pose"][int(rng.integers(len(v["pose"])))] = 0.0
+                labels.add("exact_special_values")
     share = []
     if alias:
         # some vertices of one cluster start from the same initial pose and share its storage (object or numpy array)
